@@ -77,6 +77,9 @@ DivQ(a, k) == <<Q(a[1], k), Q(a[2], k)>>
 DivT(a, k) == <<TruncDiv(a[1], k), TruncDiv(a[2], k)>>
 DotP(a, b) == a[1] * b[1] + a[2] * b[2]
 Det(a, b) == a[1] * b[2] - a[2] * b[1]
+\* Vector2DOps: quarter turns as the doc comments spell them, `a.left() => (-a.y, a.x)`, `a.right() => (a.y, -a.x)`
+VLeft(a) == <<-a[2], a[1]>>
+VRight(a) == <<a[2], -a[1]>>
 
 NS == Hi - Lo + 1
 Scalars == [i \in 1 .. NS |-> Lo + i - 1]
@@ -136,6 +139,9 @@ PairCase(a, b) ==
      divq |-> [i \in 1 .. NS |-> IF Scalars[i] = 0 THEN <<>> ELSE DivQ(a, Scalars[i])],
      divt |-> [i \in 1 .. NS |-> IF Scalars[i] = 0 THEN <<>> ELSE DivT(a, Scalars[i])],
      dot |-> DotP(a, b),
+     \* geo::Vector2DOps for Coord (float scalars): the hand-written linear algebra behind the other algorithms
+     wedge |-> Det(a, b), magsq |-> DotP(a, a), isqrt |-> ISqrt(DotP(a, a)), mag_exact |-> IsSquare(DotP(a, a)),
+     left |-> VLeft(a), right |-> VRight(a), signs |-> <<Sign(a[1]), Sign(a[2])>>, axis |-> a[1] = 0 \/ a[2] = 0,
      deg |-> <<DegBr(a[1]), DegBr(a[2])>>, rad |-> <<RadBr(a[1]), RadBr(a[2])>>,
      \* Line
      dx |-> Dx(a, b), dy |-> Dy(a, b), delta |-> Sub(b, a), vertical |-> v, dysign |-> Sign(Dy(a, b)),
@@ -203,6 +209,12 @@ PairLaws(a, b) ==
                      /\ \A j \in 1 .. 2 : Abs(DivT(a, k)[j] * k) <= Abs(a[j]) /\ Abs(a[j] - DivT(a, k)[j] * k) < Abs(k)
     /\ DotP(a, b) = DotP(b, a) /\ DotP(a, a) = D2(a, Zero) /\ DotP(a, b) = Dot(Zero, a, b)
     /\ Det(a, b) = -Det(b, a) /\ Det(a, b) = Cross(Zero, a, b)
+    \* Vector2DOps: the wedge product is "equivalent to a.dot(b.right())"; quarter turns are inverse to each other, keep the length,
+    \* are perpendicular to the vector and four of them are the identity; the integer root brackets the magnitude
+    /\ Det(a, b) = DotP(a, VRight(b)) /\ VLeft(VRight(a)) = a /\ VRight(VLeft(a)) = a /\ VLeft(VLeft(a)) = Neg(a)
+    /\ DotP(a, VLeft(a)) = 0 /\ DotP(VLeft(a), VLeft(a)) = DotP(a, a) /\ Det(a, VLeft(a)) = DotP(a, a)
+    /\ LET r == ISqrt(DotP(a, a)) IN r * r <= DotP(a, a) /\ DotP(a, a) < (r + 1) * (r + 1) /\ (IsSquare(DotP(a, a)) <=> r * r = DotP(a, a))
+    /\ DotP(a, b) * DotP(a, b) + Det(a, b) * Det(a, b) = DotP(a, a) * DotP(b, b)      \* Lagrange's identity
     /\ \A j \in 1 .. 2 : BrLaws(a[j])
     \* the slope does not depend on the direction; dx, dy do
     /\ Vertical(a, b) = Vertical(b, a) /\ (~Vertical(a, b) => Slope(a, b) = Slope(b, a))
